@@ -211,14 +211,16 @@ def r2(ctx):
     for c in sc.calls:
         if c['callee'] == 'board_builder::BoardBuilder::side_to_move':
             col = norm(c['argvals'][1])
-            for g in guards(sc, c['blk'], transitive=True):
-                if g['cond'] is None:
-                    continue
-                cn = norm(g['cond'])
-                if cn[0] == 'call' and cn[1] == 'core::str::traits::<impl core::cmp::PartialEq for str>::eq' and truth(g) is True:
-                    lits = [a[1] for a in cn[2] if a[0] == 'str']
-                    for l in lits:
-                        sside.setdefault(col[2] if col[0] == 'enum' else '?', set()).add(l)
+            for conj in dnf(sc, c['blk']):
+                for g in conj:
+                    if g['cond'] is None:
+                        continue
+                    cn = norm(g['cond'])
+                    if cn[0] == 'call' and cn[1] == 'core::str::traits::<impl core::cmp::PartialEq for str>::eq' and g['truth'] is True:
+                        lits = [a[1] for a in cn[2] if a[0] == 'str']
+                        # only the innermost positive test of a disjunct decides
+                        for l in lits:
+                            sside.setdefault(col[2] if col[0] == 'enum' else '?', set()).add(l)
     if 'w' in sside.get('White', ()) and 'b' in sside.get('Black', ()) and not (sside.get('White', set()) & sside.get('Black', set())):
         ctx.ok(R, 'scanner side field: %s' % {k: sorted(v) for k, v in sside.items()}, where(sc.body))
     else:
@@ -366,6 +368,42 @@ def r3(ctx):
                     ctx.ok(R, 'piece letter is taken from pieces[make_square(rank, file)] (piece, colour) of the loop square', where(s.body, c['line']))
                 else:
                     ctx.violation(R, DISP + ':slot', 'piece letter argument is %s' % sh(a, 300), where(s.body, c['line']))
+    # the castling '-' is written iff neither side has rights
+    il = inliner(ctx)
+    for c, parts in ws:
+        if parts != [('lit', '-')]:
+            continue
+        disj = dnf(s, c['blk'])
+        is_castle_dash = False
+        for g in guards(s, c['blk'], transitive=False):
+            if g['cond'] is not None and any(x[0] == 'index' and x[1] == ('field', SELF, 'castle_rights') for x in walk(norm(il.inline(g['cond'])))):
+                is_castle_dash = True
+        if not is_castle_dash:
+            continue
+        foreign = False
+        slots = None
+        for conj in disj:
+            cs = set()
+            for g in conj:
+                if g['cond'] is None:
+                    continue
+                cn = norm(il.inline(g['cond']))
+                idxs = [x for x in walk(cn) if x[0] == 'index' and x[1] == ('field', SELF, 'castle_rights')]
+                if idxs and cn[0] == 'bin':
+                    nr = ctx.facts().enum_discr('castle_rights::CastleRights', 'NoRights')
+                    m = match(('bin', 'Eq', ('discr', V('slot')), ('int', nr, 'isize')), cn)
+                    if m is not None and g['truth'] is True and m['slot'][2][0] == 'int':
+                        cs.add(m['slot'][2][1])
+                    else:
+                        foreign = True
+            slots = cs if slots is None else (slots & cs)
+        slots = slots or set()
+        if is_castle_dash:
+            if slots == {0, 1} and not foreign:
+                ctx.ok(R, "castling field is '-' exactly when both colours have NoRights", where(s.body, c['line']))
+            else:
+                ctx.violation(R, DISP + ':castling-dash', "the castling '-' is written under a condition other than `both sides have no rights` "
+                              "(slots tested: %s)" % sorted(slots), where(s.body, c['line']))
     for c, parts in ws:
         if parts == [('lit', '/')]:
             gs = [g for g in guards(s, c['blk'], transitive=False) if g['cond'] is not None]
